@@ -304,8 +304,8 @@ theorem T_C14_box (a b c : Rat) (ha : 0 < a) (hb : 0 < b) (hc : 0 < c) :
 /-- Stretching the cube of side `L` by the factor `s ≥ 1` along any one of its three directions gives the
     same scale-free signature whichever direction is chosen: the cube's angle entries and the aspect
     entry `s²` — which does not decrease when `s` grows; hence equal idealised values for the three
-    directions.  (That the float post-processing `3·3^(2.5·log10 √s²) - 3` is increasing in `s` is not
-    proved; the oracle checks it on the implementation.) -/
+    directions.  (That the value then does not decrease is `T_C14_stretch_value` / `T_C14_stretch_aspect_term`: for every
+    aspect term that is monotone, in particular `q_scale₂ ∘ log10 ∘ √` with the regenerated constants.) -/
 theorem T_C14_stretch (L s : Rat) (hL : 0 < L) (hs : 1 ≤ s) :
     let cube := ⟨List.replicate 24 ⟨1, 1⟩, List.replicate 24 ⟨0, 0⟩, s * s⟩
     (sigHex (box (s * L) L L) (fun _ => none)).norm = cube ∧
@@ -681,5 +681,20 @@ theorem T_C14_stretch_aspect_term (pw : Rat → Rat → Rat) (hpw : ∀ b, 1 < b
 example : CBV.Gen.c14QScale[2]? = some [(3, 1), (5, 2), (3, 1)] ∧
     (∀ b : Rat, 1 < b → ∀ x y, x ≤ y → b * x ≤ b * y) :=
   ⟨by decide, fun b hb x y h => mul_le_mul_of_nonneg_left h (by linarith)⟩
+
+/-- the same for a square stretched into a rectangle (quad cell), for every monotone aspect term -/
+theorem T_C14_stretch_value_quad (A B : Tri0 → Rat) (C : Rat → Rat) (hC : ∀ x y, 1 ≤ x → x ≤ y → C x ≤ C y)
+    (L s s' : Rat) (hL : 0 < L) (hs : 1 ≤ s) (hss : s ≤ s') :
+    value0 A B C (sigQuad (rect (s * L) L) (fun _ => none)).norm = value0 A B C (sigQuad (rect L (s * L)) (fun _ => none)).norm ∧
+    value0 A B C (sigQuad (rect (s * L) L) (fun _ => none)).norm ≤ value0 A B C (sigQuad (rect (s' * L) L) (fun _ => none)).norm := by
+  have h1 := T_C14_stretch_quad L s hL hs
+  have h2 := T_C14_stretch_quad L s' hL (hs.trans hss)
+  simp only at h1 h2
+  rw [h1.1, h1.2.1, h2.1]
+  refine ⟨rfl, ?_⟩
+  unfold value0
+  simp only
+  have : C (s * s) ≤ C (s' * s') := hC _ _ (by nlinarith) (by nlinarith)
+  linarith
 
 end CBV.C14
